@@ -290,6 +290,9 @@ def search(tier, rng):
         t, n = TYPES[i % len(TYPES)]
         yield J('p_mock_pattern', t, *pattern(rng, t, valid_only=True, upper_only=True))
     for t, n in TYPES:
+        for code in list(range(32, 127)) + [0, 9, 10, 127, 160, 178, 233, 1633, 65297, 65313, 120793, 0x10FFFF]:
+            yield J('p_mock_char', t, code)
+    for t, n in TYPES:
         for ch in charset(t):
             yield J('p_mock_pattern', t, 'r' + ch)
             yield J('p_mock_pattern', t, 'r' + '_' * 63 + ch)
@@ -321,7 +324,7 @@ TRUSTED = ['modelled, not verified: core::char::to_digit / from_digit / to_ascii
            'Debug: the header / "(n empty rows skipped)" text is modelled (debug_string) and compared by correspondence; the theorems speak '
            'about the rows (debug_rows)']
 PARTIAL = []
-LEVEL_TEXT = ('Proof: 30 Coq theorems over the Gallina model of MockDisplay (coq/Model/Mockdisplay.v: the 4096-cell array with the index '
+LEVEL_TEXT = ('Proof: 31 Coq theorems over the Gallina model of MockDisplay (coq/Model/Mockdisplay.v: the 4096-cell array with the index '
               'arithmetic as written, both flags, every panic as a value). After ANY operation history that runs to its end get_pixel(p) is the '
               'content given by the last event at p and None elsewhere and outside the display (induction over the history); drawing panics '
               'exactly at the first pixel outside the display / drawn twice while the respective check is on, and with no other panic kind; '
